@@ -288,7 +288,7 @@ func runWorker(ck *Check, tier string, seed int64, w, n int) {
 		started, running = time.Now(), true
 		startedMu.Unlock()
 		x.evals++
-		ck.Exec(x, c)
+		safeExec(ck, x, c)
 		startedMu.Lock()
 		running = false
 		startedMu.Unlock()
@@ -300,6 +300,34 @@ func runWorker(ck *Check, tier string, seed int64, w, n int) {
 	x.emit(msg{T: "done", Evals: x.evals, NtCount: x.ntCount, NtSet: setKeys(x.ntSet), States: setKeys(x.states),
 		Trans: x.trans, Traces: x.traces, Outcomes: x.outcomes, Samples: x.samples, Info: x.info,
 		Caps: caps, Expired: x.expired, Count: x.viols})
+}
+
+// safeExec runs one case. A panic inside the check's own code while it digests what gopki produced
+// (a key without coordinates, a nil where the API promises a value, ...) must not take the worker
+// down and lose the case: it is reported as a violation of the property with the panic site as class.
+// On the unchanged tree no check panics, so this cannot raise an alarm there.
+func safeExec(ck *Check, x *Ctx, c any) {
+	defer func() {
+		if r := recover(); r != nil {
+			st := string(debug.Stack())
+			site := "unknown"
+			lines := strings.Split(st, "\n")
+			for i, l := range lines {
+				if strings.HasPrefix(l, "verif/mc/checks.") && i+1 < len(lines) {
+					site = strings.TrimPrefix(l, "verif/mc/checks.")
+					if j := strings.LastIndex(site, "("); j > 0 {
+						site = site[:j]
+					}
+					break
+				}
+			}
+			if len(st) > 2500 {
+				st = st[:2500]
+			}
+			x.Violation(ck.ID+"/check-crashed-on-gopki-output/"+site, fmt.Sprintf("the check itself panicked while evaluating what gopki returned: %v\n%s", r, st))
+		}
+	}()
+	ck.Exec(x, c)
 }
 
 // runReplay re-executes one stored case and prints the classes it violates.
@@ -330,7 +358,7 @@ func runReplay(ck *Check, tier string, file string) int {
 		ck.Setup(x)
 	}
 	x.cur = c
-	ck.Exec(x, c)
+	safeExec(ck, x, c)
 	x.out.Flush()
 	classes := []string{}
 	sc := bufio.NewScanner(&buf)
